@@ -25,29 +25,49 @@ func sameNetIDSpelling(a, b string) bool {
 
 func validKEKLen(k []byte) bool { return len(k) == 16 || len(k) == 24 || len(k) == 32 }
 
-// openEnvelope returns the key an envelope carries, unwrapping it with the
-// KEK the store holds for its label.
-func openEnvelope(w *world, name string, env *backend.KeyEnvelope, wantLabel string, wantKEK []byte) ([]byte, string) {
+// openEnvelope returns the key an envelope carries, unwrapping it with one of
+// the KEKs the store held for its label while the request was being handled.
+func openEnvelope(w *world, name string, env *backend.KeyEnvelope, wantLabel string, cands [][]byte) ([]byte, string) {
 	if env == nil {
 		return nil, name + " envelope missing"
 	}
-	if kekUsable(wantLabel, wantKEK) {
+	usable := false
+	for _, k := range cands {
+		if kekUsable(wantLabel, k) {
+			usable = true
+		}
+	}
+	if usable {
 		if env.KEKLabel != wantLabel && !sameNetIDSpelling(env.KEKLabel, wantLabel) {
 			return nil, fmt.Sprintf("%s envelope has KEK label %q, configured label is %q", name, env.KEKLabel, wantLabel)
 		}
-		k, err := spec.KeyUnwrap(wantKEK, env.AESKey)
-		if err != nil {
-			return nil, fmt.Sprintf("%s envelope does not unwrap with the configured KEK: %v", name, err)
+		var k []byte
+		var used []byte
+		var lastErr error
+		for _, c := range cands {
+			if !kekUsable(wantLabel, c) {
+				continue
+			}
+			kk, err := spec.KeyUnwrap(c, env.AESKey)
+			if err == nil {
+				k, used = kk, c
+				break
+			}
+			lastErr = err
+		}
+		if k == nil {
+			return nil, fmt.Sprintf("%s envelope does not unwrap with the KEK configured for label %q (nor with any value the label held while the request was handled): %v", name, wantLabel, lastErr)
 		}
 		simrt.Count(cWrapped)
 		// the network server's half: the same envelope opened with the
-		// library's own KeyEnvelope.Unwrap yields the same key
+		// library's own KeyEnvelope.Unwrap yields the same key (KeyEnvelope is
+		// C17's subject: counted, not judged)
 		if len(k) == 16 {
 			var lk lorawan.AES128Key
 			var lerr error
-			if !sim.Guard("panic", func() { lk, lerr = env.Unwrap(wantKEK) }) {
+			if !sim.Guard("panic", func() { lk, lerr = env.Unwrap(used) }) {
 				if lerr != nil || !bytes.Equal(lk[:], k) {
-					simrt.Report("joinkeys:lib-unwrap", fmt.Sprintf("%s envelope %x: KeyEnvelope.Unwrap gives %x (err %v), RFC 3394 unwrap gives %x", name, []byte(env.AESKey), lk[:], lerr, k))
+					simrt.Count(cLibUnwrap)
 				}
 			}
 		}
@@ -59,54 +79,179 @@ func openEnvelope(w *world, name string, env *backend.KeyEnvelope, wantLabel str
 	return env.AESKey, ""
 }
 
+// digest is what storage did for one delivery of one request: everything the
+// log holds for the request's DevEUI and labels between hand-over and return.
+type digest struct {
+	nonces   []int
+	gens     []int
+	notFound bool
+	keysErr  bool
+	nsErr    bool
+	asErr    bool
+	labelErr bool
+	slept    int64
+	nsCands  [][]byte
+	asCands  [][]byte
+}
+
+func sameLabel(a, b string) bool { return a == b || sameNetIDSpelling(a, b) }
+
+func digestOf(rq *request, c *reqCtx, nsLabel, asLabel string) digest {
+	var d digest
+	var nsBefore, asBefore []byte
+	haveNS, haveAS := false, false
+	for _, e := range stoEvents() {
+		in := e.tick > c.inv && (c.ret == 0 || e.tick < c.ret)
+		switch e.kind {
+		case seKEKSet:
+			if sameLabel(e.label, nsLabel) {
+				if e.tick <= c.inv {
+					nsBefore, haveNS = e.kek, true
+				} else if in {
+					d.nsCands = append(d.nsCands, e.kek)
+				}
+			}
+			if e.label == asLabel {
+				if e.tick <= c.inv {
+					asBefore, haveAS = e.kek, true
+				} else if in {
+					d.asCands = append(d.asCands, e.kek)
+				}
+			}
+			continue
+		}
+		if !in {
+			continue
+		}
+		switch e.kind {
+		case seKeys:
+			if e.dev == rq.rec.idx {
+				d.nonces = append(d.nonces, e.nonce)
+				d.gens = append(d.gens, e.gen)
+			}
+		case seNotFound:
+			if e.dev == rq.rec.idx {
+				d.notFound = true
+			}
+		case seKeysErr:
+			if e.dev == rq.rec.idx {
+				d.keysErr = true
+			}
+		case seLabelErr:
+			if e.dev == rq.rec.idx {
+				d.labelErr = true
+			}
+		case seKEK:
+			if sameLabel(e.label, nsLabel) {
+				d.nsCands = append(d.nsCands, e.kek)
+			}
+			if e.label == asLabel {
+				d.asCands = append(d.asCands, e.kek)
+			}
+		case seKEKErr:
+			if sameLabel(e.label, nsLabel) {
+				d.nsErr = true
+			}
+			if e.label == asLabel {
+				d.asErr = true
+			}
+		case seSlow:
+			if e.dev == rq.rec.idx || (e.dev < 0 && (sameLabel(e.label, nsLabel) || e.label == asLabel)) {
+				d.slept += e.dur
+			}
+		}
+	}
+	if haveNS {
+		d.nsCands = append(d.nsCands, nsBefore)
+	}
+	if haveAS {
+		d.asCands = append(d.asCands, asBefore)
+	}
+	return d
+}
+
 // judge applies J1-J4 to one answer.
 func judge(w *world, rq *request, c *reqCtx, code int, base backend.BasePayloadResult, got interface{}, sender, receiver string, live bool) {
 	rc := base.Result.ResultCode
 	simrt.Trace(evAns, uint64(rq.kind), uint64(len(rc)))
 	kindName := []string{"join", "rejoin0", "rejoin1", "rejoin2", "homens"}[rq.kind]
 
-	// J3: every answer mirrors sender, receiver, transaction id and has the matching type
-	wantType := map[int]backend.MessageType{0: backend.JoinAns, 1: backend.RejoinAns, 2: backend.RejoinAns, 3: backend.RejoinAns, 4: backend.HomeNSAns}[rq.kind]
-	_ = wantType // the statement asks for sender, receiver and transaction id
-	if base.SenderID != receiver || base.ReceiverID != sender || base.TransactionID != rq.txID {
+	// J3: every answer mirrors sender, receiver and transaction id (the same
+	// identifier in another spelling - case, 0x - is the same identifier)
+	sameID := func(a, b string) bool {
+		norm := func(x string) string { return strings.TrimPrefix(strings.ToLower(x), "0x") }
+		return norm(a) == norm(b)
+	}
+	if !sameID(base.SenderID, receiver) || !sameID(base.ReceiverID, sender) || base.TransactionID != rq.txID {
 		simrt.Report("j3.mirror:"+kindName, fmt.Sprintf("answer (%s) has SenderID=%q ReceiverID=%q TransactionID=%d MessageType=%s; request had SenderID=%q ReceiverID=%q TransactionID=%d",
 			rc, base.SenderID, base.ReceiverID, base.TransactionID, base.MessageType, sender, receiver, rq.txID))
-	}
-
-	// what must happen, from the request and from what storage did for THIS delivery
-	// (what storage answered to THIS delivery: a device may be provisioned and
-	// a label re-keyed while other requests are in flight)
-	// (a request that was answered without asking storage counts as "unknown"
-	// only if the device was not provisioned yet when it was sent)
-	unknown := c.notFound || (!c.gotKeys && !c.firedKeys && !rq.knownAtSend)
-	storageErr := c.firedKeys || c.firedKEK || c.firedLabel
-	nsLabel := sender
-	nsKEK := kekGet(nsLabel)
-	if c.nsServed {
-		nsKEK = c.nsKEK
-	}
-	asLabel := rq.rec.asLabel
-	asKEK := kekGet(asLabel)
-	if c.asServed {
-		asKEK = c.asKEK
-	}
-	// a storage back-end that took seconds: whether the join-server gives up
-	// on such a request (a time-out policy) is not in the statement; it may
-	// answer non-Success, never a wrong Success
-	verySlow := c.slept >= 1e9 || c.cancelled // (a request whose client went away may be abandoned too)
-	badKEK := (kekUsable(nsLabel, nsKEK) && !validKEKLen(nsKEK)) || (kekUsable(asLabel, asKEK) && !validKEKLen(asKEK))
-	rxBad := rq.rxDelay < 0 || rq.rxDelay > 15
-
-	// a key rotation between the device building its request and storage
-	// serving it is a legitimate mismatch (the request is answered for the
-	// other generation): not judged beyond J3
-	if rq.kind != 4 && c.gotKeys && c.gen != rq.gen {
-		simrt.Count(cRotRace)
-		return
 	}
 	if rq.kind == 4 {
 		// HomeNSReq: the statement only covers the mirroring (checked above)
 		return
+	}
+
+	// what must happen, from the request and from what storage did for its
+	// DevEUI and labels while THIS delivery was inside the handler
+	nsLabel := sender
+	asLabel := rq.rec.asLabel
+	d := digestOf(rq, c, nsLabel, asLabel)
+	gotKeys := len(d.nonces) > 0
+	// (a request that was answered without asking storage counts as "unknown"
+	// only if the device was not provisioned yet when it was sent)
+	// (a window in which storage both answered "not found" and served keys for
+	// this DevEUI - the device was provisioned while requests for it were in
+	// flight - fits either answer)
+	unknown := (d.notFound && !gotKeys) || (!gotKeys && !d.keysErr && !rq.knownAtSend)
+	either := d.notFound && gotKeys
+	storageErr := d.keysErr || d.nsErr || d.asErr || d.labelErr
+	usableNS, usableAS, badKEK := false, false, false
+	for _, k := range d.nsCands {
+		if kekUsable(nsLabel, k) {
+			usableNS = true
+			if !validKEKLen(k) {
+				badKEK = true
+			}
+		}
+	}
+	for _, k := range d.asCands {
+		if kekUsable(asLabel, k) {
+			usableAS = true
+			if !validKEKLen(k) {
+				badKEK = true
+			}
+		}
+	}
+	if asLabel != "" && !usableAS {
+		// a label without a key in the store: a join-server may refuse to hand
+		// the AppSKey out in clear
+		badKEK = true
+	}
+	_ = usableNS
+	rxBad := rq.rxDelay < 0 || rq.rxDelay > 15
+	// a slow storage back-end, a client that went away: whether the
+	// join-server gives up on such a request (a time-out policy, the request's
+	// context) is not in the statement; it may answer non-Success, never a
+	// wrong Success
+	gaveUp := d.slept > 0 || c.cancelled
+	overflowAny, overflowAll := false, gotKeys
+	for _, n := range d.nonces {
+		if n >= 1<<24 {
+			overflowAny = true
+		} else {
+			overflowAll = false
+		}
+	}
+	legacyRejoin := rq.kind > 0 && !rq.optNeg
+
+	// a key rotation between the device building its request and storage
+	// serving it is a legitimate mismatch (the request is answered for the
+	// other generation): not judged beyond J3
+	for _, g := range d.gens {
+		if g != rq.gen {
+			simrt.Count(cRotRace)
+			return
+		}
 	}
 
 	var phy backend.HEXBytes
@@ -119,34 +264,44 @@ func judge(w *world, rq *request, c *reqCtx, code int, base backend.BasePayloadR
 		phy = a.PHYPayload
 		envs.s, envs.f, envs.e, envs.n, envs.a = a.SNwkSIntKey, a.FNwkSIntKey, a.NwkSEncKey, a.NwkSKey, a.AppSKey
 	}
-	hasKeys := envs.s != nil || envs.f != nil || envs.e != nil || envs.n != nil || envs.a != nil || len(phy) > 0
 
 	if rc != backend.Success {
-		_ = hasKeys // (whether an error answer may carry a PHYPayload is not in the statement)
 		switch {
 		case storageErr:
 			// the narrow relaxation: a storage callback failed for this delivery
 			// (also when the device is unknown as well: a handler that issues its
 			// look-ups side by side may meet either first), it may fail with any
 			// non-Success code
-		case unknown && c.failKeys != 1:
+		case gaveUp:
+			simrt.Count(cSlowFail)
+		case either && rc == backend.UnknownDevEUI:
+			simrt.Count(cRotRace)
+		case unknown:
 			if rc != backend.UnknownDevEUI {
 				simrt.Report("j2.unknown-deveui:"+kindName, fmt.Sprintf("request for an unknown DevEUI answered %s (%s)", rc, base.Result.Description))
 			}
-		case rq.badMIC && rq.kind == 0:
+		case rq.badMIC && rq.kind == 0 && gotKeys:
 			// the device is known and its keys were served: a wrong MIC is
 			// MICFailed whatever else is wrong with the request
 			if rc != backend.MICFailed {
-				simrt.Report("j2.micfailed", fmt.Sprintf("join-request with a wrong MIC answered %s (%s); rxdelay=%d nonce-overflow=%v", rc, base.Result.Description, rq.rxDelay, c.overflow))
+				simrt.Report("j2.micfailed", fmt.Sprintf("join-request with a wrong MIC answered %s (%s); rxdelay=%d nonce-overflow=%v", rc, base.Result.Description, rq.rxDelay, overflowAny))
 			}
-		case c.overflow || badKEK || rxBad:
+		case overflowAny || badKEK || rxBad:
 			// the narrow relaxation: this request cannot be answered with
 			// Success (nonce does not fit, KEK unusable, RxDelay does not fit)
 		case rq.badMIC:
-			// a rejoin-request with a wrong MIC: the statement promises Success
-			// only for a correct MIC; whether the join-server checks it is open
-		case verySlow:
-			simrt.Count(cSlowFail)
+			// a rejoin-request with a wrong MIC (or a join-request whose keys
+			// were never served): the statement promises Success only for a
+			// correct MIC
+		case legacyRejoin:
+			// a rejoin-request whose DLSettings lack OptNeg is outside what
+			// LoRaWAN 1.1 defines: a join-server may refuse it
+			simrt.Count(cLegacyRefused)
+		case rq.odd || c.odd:
+			// legal but unusual input of a fault batch (MACVersion that does not
+			// fit the request, an explicitly empty CFList member, a body without
+			// declared length): a stricter join-server may refuse it
+			simrt.Count(cOddRefused)
 		default:
 			sig := "j1.rejected:" + kindName
 			if live {
@@ -159,8 +314,8 @@ func judge(w *world, rq *request, c *reqCtx, code int, base backend.BasePayloadR
 
 	// ---- Success ----
 	_ = code // the HTTP status is not part of the statement
-	if unknown || (c.firedKeys && !c.gotKeys) {
-		simrt.Report("j4.success-despite-storage-error:"+kindName, "Success although storage returned no device keys")
+	if !gotKeys {
+		simrt.Report("j4.success-despite-storage-error:"+kindName, "Success although storage served no device keys for this DevEUI while the request was being handled")
 		return
 	}
 	if rq.badMIC && rq.kind > 0 {
@@ -170,16 +325,13 @@ func judge(w *world, rq *request, c *reqCtx, code int, base backend.BasePayloadR
 		simrt.Report("j2.micfailed", "join-request with a wrong MIC answered Success")
 		return
 	}
-	if c.overflow {
-		simrt.Report("j4.success-despite-nonce-overflow:"+kindName, fmt.Sprintf("Success although the configured JoinNonce %d does not fit 24 bits", c.nonce))
+	if overflowAll {
+		simrt.Report("j4.success-despite-nonce-overflow:"+kindName, fmt.Sprintf("Success although the configured JoinNonce %v does not fit 24 bits", d.nonces))
 		return
 	}
-	// a look-up that failed and was then served (a handler that retries a
-	// flaky back-end) is no obstacle to Success; one that was never served is
-	if (c.firedKEK && ((c.failKEK == 1 && !c.nsServed) || (c.failKEK == 2 && !c.asServed))) || (c.firedLabel && !c.labelServed) {
-		simrt.Report("j4.success-despite-storage-error:"+kindName, "Success although a storage callback of this request failed and was never served")
-		return
-	}
+	// (a look-up that failed and was then served, or was answered from
+	// something the join-server had kept, is no obstacle to Success: what the
+	// answer carries is judged below)
 	reqType := byte(spec.ReqJoin)
 	if rq.kind > 0 {
 		reqType = byte(rq.kind - 1)
@@ -192,7 +344,6 @@ func judge(w *world, rq *request, c *reqCtx, code int, base backend.BasePayloadR
 		simrt.Report("j1.accept-shape:"+kindName, fmt.Sprintf("device cannot read the join-accept %x: %v", []byte(phy), err))
 		return
 	}
-	legacyRejoin := rq.kind > 0 && !rq.optNeg
 	if !ja.MICOK && !legacyRejoin {
 		simrt.Report("j1.accept-mic:"+kindName, fmt.Sprintf("device rejects the MIC of the join-accept %x (optneg in accept=%v, requested %v)", []byte(phy), ja.OptNeg, rq.optNeg))
 		return
@@ -205,8 +356,14 @@ func judge(w *world, rq *request, c *reqCtx, code int, base backend.BasePayloadR
 	if rq.dl.OptNeg {
 		dlByte |= 0x80
 	}
-	if int(ja.JoinNonce) != c.nonce {
-		simrt.Report("j1.echo:JoinNonce:"+kindName, fmt.Sprintf("join-accept carries JoinNonce %d, storage configured %d for this request", ja.JoinNonce, c.nonce))
+	nonceOK := false
+	for _, n := range d.nonces {
+		if int(ja.JoinNonce) == n {
+			nonceOK = true
+		}
+	}
+	if !nonceOK {
+		simrt.Report("j1.echo:JoinNonce:"+kindName, fmt.Sprintf("join-accept carries JoinNonce %d, storage configured %v for this DevEUI while the request was being handled", ja.JoinNonce, d.nonces))
 	}
 	_ = netLE // (the NetID in the accept is not among the fields the statement lists)
 	if ja.DevAddrLE != addrLE {
@@ -228,8 +385,8 @@ func judge(w *world, rq *request, c *reqCtx, code int, base backend.BasePayloadR
 	// session keys: envelopes (after unwrapping with the configured KEKs)
 	// must equal what the device derives
 	keys := rq.dev.DeriveKeys(ja, rq.nonce)
-	cmp := func(name string, env *backend.KeyEnvelope, label string, kek []byte, want spec.Key) {
-		k, why := openEnvelope(w, name, env, label, kek)
+	cmp := func(name string, env *backend.KeyEnvelope, label string, keks [][]byte, want spec.Key) {
+		k, why := openEnvelope(w, name, env, label, keks)
 		if why != "" {
 			simrt.Report("j1.envelope:"+name+":"+kindName, why)
 			return
@@ -253,13 +410,13 @@ func judge(w *world, rq *request, c *reqCtx, code int, base backend.BasePayloadR
 			simrt.Report(sig, fmt.Sprintf("%s in the answer is %x, the device derives %x (optneg=%v, JoinNonce=%d, nonce/RJCount=%d, DevEUI=%x)", name, k, want[:], ja.OptNeg, ja.JoinNonce, rq.nonce, rq.dev.DevEUI))
 		}
 	}
-	cmp("AppSKey", envs.a, asLabel, asKEK, keys.AppS)
+	cmp("AppSKey", envs.a, asLabel, d.asCands, keys.AppS)
 	if ja.OptNeg {
-		cmp("FNwkSIntKey", envs.f, nsLabel, nsKEK, keys.FNwkSInt)
-		cmp("SNwkSIntKey", envs.s, nsLabel, nsKEK, keys.SNwkSInt)
-		cmp("NwkSEncKey", envs.e, nsLabel, nsKEK, keys.NwkSEnc)
+		cmp("FNwkSIntKey", envs.f, nsLabel, d.nsCands, keys.FNwkSInt)
+		cmp("SNwkSIntKey", envs.s, nsLabel, d.nsCands, keys.SNwkSInt)
+		cmp("NwkSEncKey", envs.e, nsLabel, d.nsCands, keys.NwkSEnc)
 	} else {
-		cmp("NwkSKey", envs.n, nsLabel, nsKEK, keys.FNwkSInt)
+		cmp("NwkSKey", envs.n, nsLabel, d.nsCands, keys.FNwkSInt)
 	}
 	_ = lorawan.EUI64{}
 }
